@@ -32,16 +32,20 @@ class C07(Prop):
                     Layer("level2 binary (4 atoms x 5 quantifiers)", lambda: self.cases(lambda: GP.level2(4, 5)), policies=nat),
                     Layer("level2 groups (3 atoms)", lambda: self.cases(lambda: GP.level2_groups(3)), policies=nat),
                     Layer("nested groups", lambda: self.cases(GP.nested_groups), policies=nat),
+                    Layer("ordered pairs of set atoms built in one process", GP.set_pairs, policies=nat),
                     Layer("invalid patterns", lambda: (("bad", p) for p in GP.INVALID), policies=nat)]
         ls = [Layer("level1 atoms x quantifiers", lambda: self.cases(GP.level1), policies=nat),
               Layer("level2 binary", lambda: self.cases(GP.level2), policies=nat),
               Layer("level2 groups", lambda: self.cases(GP.level2_groups), policies=nat),
               Layer("nested groups", lambda: self.cases(GP.nested_groups), policies=nat),
+              Layer("ordered pairs of set atoms built in one process", GP.set_pairs, policies=nat),
               Layer("invalid patterns", lambda: (("bad", p) for p in GP.INVALID), policies=nat),
               Layer("level3 pruned", lambda: self.cases(GP.level3), policies=nat)]
         return ls
 
     def pattern(self, case):
+        if case[0] == "seq":
+            return case[1][1]
         return case[1] if case[0] == "bad" else GP.text(self.thaw_node(case[1]))
 
     @classmethod
@@ -49,6 +53,8 @@ class C07(Prop):
         return tuple(cls.thaw_node(x) if isinstance(x, (list, tuple)) else x for x in n)
 
     def thaw(self, case):
+        if case[0] == "seq":
+            return ("seq", tuple(case[1]))
         return (case[0], self.thaw_node(case[1]) if case[0] == "pat" else case[1])
 
     def reference(self, case):
@@ -63,10 +69,10 @@ class C07(Prop):
         return (ref["valid"], len(ref.get("acc", ())), hash(ref.get("acc")) & 0xffff)
 
     def nontrivial(self, case, ref):
-        return ref["valid"] and case[0] == "pat" and case[1][0] != "atom"
+        return ref["valid"] and case[0] in ("pat", "seq") and case[1][0] != "atom"
 
     def describe(self, case):
-        return {"pattern": self.pattern(case)}
+        return {"pattern": self.pattern(case), "built before": case[1][0] if case[0] == "seq" else None}
 
     def script(self, case):
         return ["from pyformlang.regular_expression import PythonRegex", "r = PythonRegex(%r)" % self.pattern(case)]
@@ -74,6 +80,11 @@ class C07(Prop):
     def check(self, case, ref, ctx):
         from pyformlang.regular_expression import PythonRegex
         p = ref["p"]
+        if case[0] == "seq":
+            # the first pattern is built (and used) before the one that is checked
+            first = ctx.call(PythonRegex, case[1][0])
+            if first.ok:
+                ctx.call(first.value.accepts, "a")
         r = ctx.call(PythonRegex, p)
         if r.kind == "timeout":
             ctx.fail("C07.construct.terminates", pattern=p)
